@@ -5,7 +5,7 @@ CONSTANTS
   AmpsL <- Amps2
   Pin = 2
   Mutant = "count_r0"
-  ExemptKnown = TRUE
+  PreFix = FALSE
   Emit = FALSE
 INVARIANT RouteGivesDense
 CHECK_DEADLOCK FALSE
